@@ -41,6 +41,15 @@ VPREL = '''pub mod vprel {
     pub use std::collections::{BTreeMap, BTreeSet}; pub use std::vec::Vec; pub use core::ops::{Add, Mul, Sub};
     pub use std::borrow::Cow; pub use core::marker::PhantomData; pub use core::iter; pub use core::fmt::{self, Debug};
     pub use std::string::ToString; pub use crate::vstdx::*; pub use crate::traits::{CryptoRng, Bytes};
+    // type names used by contracts (glob imports never conflict with a module's own explicit imports)
+    pub use crate::traits::{Ciphersuite, Field, Group, Scalar, Element};
+    pub use crate::serialization::{SerializableElement, SerializableScalar};
+    pub use crate::{Header, Identifier, Error, FieldError, GroupError, Signature, SigningKey, VerifyingKey, Challenge, BindingFactor,
+                    BindingFactorList, SigningPackage, GroupCommitment, CheaterDetection};
+    pub use crate::keys::{SigningShare, VerifyingShare, CoefficientCommitment, VerifiableSecretSharingCommitment, SecretShare,
+                          KeyPackage, PublicKeyPackage, IdentifierList};
+    pub use crate::round1::{Nonce, NonceCommitment, SigningNonces, SigningCommitments, GroupCommitmentShare};
+    pub use crate::round2::SignatureShare;
 }
 '''
 
@@ -425,6 +434,9 @@ class Unit:
         if c:
             for o in c.outlines:
                 t = self.apply_outline(t, o, key, meta)
+        # --- E8 closure contracts (ghost annotations on the k-th closure)
+        if c and c.closures:
+            t = self.transform_closures(t, c, key, meta)
         # --- E5 loops
         t = self.transform_loops(t, c, key, meta)
         # --- E5b fold
@@ -486,6 +498,132 @@ class Unit:
             txt += '\n{ %s }' % getattr(o, 'original', o.fields['expr'])
             out.append(txt)
         return '\n'.join(out)
+
+    def find_closures(self, t):
+        """(start, params_end, body_start, body_end, is_block) of closures in source order"""
+        res = []
+        i = 0
+        n = len(t)
+        while i < n:
+            ch = t[i]
+            if ch in '"\'br':
+                e = skip_literal(t, i)
+                if e is not None:
+                    i = e
+                    continue
+            if ch == '|':
+                j = i - 1
+                while j >= 0 and t[j].isspace():
+                    j -= 1
+                prev = t[j] if j >= 0 else '('
+                is_move = t[max(0, j - 3):j + 1] == 'move'
+                if prev in '(,=' or is_move:
+                    pe = t.find('|', i + 1)
+                    if pe > 0:
+                        bs = pe + 1
+                        while bs < n and t[bs].isspace():
+                            bs += 1
+                        if t[bs] == '{':
+                            be = find_matching(t, bs) + 1
+                            res.append((i, pe + 1, bs, be, True))
+                        else:
+                            k = bs
+                            while k < n:
+                                c2 = t[k]
+                                if c2 in '"\'br':
+                                    e = skip_literal(t, k)
+                                    if e is not None:
+                                        k = e
+                                        continue
+                                if c2 in '([{':
+                                    k = find_matching(t, k) + 1
+                                    continue
+                                if c2 in ')]},;':
+                                    break
+                                k += 1
+                            res.append((i, pe + 1, bs, k, False))
+                        i = pe + 1
+                        continue
+            i += 1
+        return res
+
+    def transform_closures(self, t, c, key, meta):
+        cls = self.find_closures(t)
+        for k in sorted(c.closures.keys(), reverse=True):
+            if k >= len(cls):
+                raise ExtractError('%s: lost anchor: contract refers to closure %d but the function has %d closures' % (key, k, len(cls)))
+            (a, pe, bs, be, is_block) = cls[k]
+            K = c.closures[k]
+            params = t[a + 1:pe - 1]
+            if K['params']:
+                params = K['params']
+            spec = ''
+            if K['ret']:
+                spec += ' -> (%s)' % K['ret']
+            if K['requires']:
+                spec += '\n    requires'
+                for cl in K['requires']:
+                    spec += '\n        /*@CL %s|closure%d_requires|%s|%d*/ (%s),' % (key, k, cl.name, cl.text.strip().count('\n'), cl.text.strip().rstrip(','))
+            if K['ensures']:
+                spec += '\n    ensures'
+                for cl in K['ensures']:
+                    spec += '\n        /*@CL %s|closure%d_ensures|%s|%d*/ (%s),' % (key, k, cl.name, cl.text.strip().count('\n'), cl.text.strip().rstrip(','))
+            body = t[bs:be]
+            if not is_block:
+                body = '{ ' + body + ' }'
+            clo = '|' + params + '|' + spec + '\n' + body
+            self.rule('E8.closure_contract')
+            meta['rules'].append('E8:closure%d' % k)
+            if K.get('adaptor'):
+                # E7 (structural form): RECV.METHOD(CLOSURE)[.collect()]  ->  HELPER(RECV, CLOSURE); the helper's body
+                # is literally `it.METHOD(f)[.collect()]` (prelude/vstdx.rs), only its std semantics is assumed
+                j = a - 1
+                while j >= 0 and t[j].isspace():
+                    j -= 1
+                if t[j] != '(':
+                    raise ExtractError('%s: closure %d is not a method argument' % (key, k))
+                mm = re.search(r'\.\s*(\w+)\s*$', t[:j])
+                if not mm:
+                    raise ExtractError('%s: closure %d: cannot find the adaptor method' % (key, k))
+                ms = mm.start()
+                rs = self.recv_start(t, ms)
+                recv = t[rs:ms].strip()
+                e2 = be
+                while t[e2].isspace():
+                    e2 += 1
+                if t[e2] != ')':
+                    raise ExtractError('%s: closure %d is not the only argument of .%s()' % (key, k, mm.group(1)))
+                e2 += 1
+                cm = re.match(r'\s*\.\s*collect\s*(::\s*<[^()]*>)?\s*\(\s*\)', t[e2:])
+                if cm:
+                    e2 += cm.end()
+                t = t[:rs] + 'crate::vstdx::%s(%s, %s)' % (K['adaptor'], recv, clo) + t[e2:]
+                self.rule('E7.adaptor_helper.' + K['adaptor'])
+                meta['rules'].append('E7:' + K['adaptor'])
+            else:
+                t = t[:a] + clo + t[be:]
+        return t
+
+    @staticmethod
+    def recv_start(t, j):
+        """start index of the postfix-expression chain that ends just before index j"""
+        depth = 0
+        k = j - 1
+        while k >= 0:
+            ch = t[k]
+            if ch in ')]':
+                depth += 1
+            elif ch in '([':
+                if depth == 0:
+                    break
+                depth -= 1
+            elif depth == 0 and not (ch.isalnum() or ch in '_.:<>&*?' or ch.isspace()):
+                break
+            k -= 1
+        s0 = k + 1
+        while s0 < j and t[s0].isspace():
+            s0 += 1
+        return s0
 
     def find_loops(self, t):
         """positions of loop keywords (for/while/loop) in statement position, in source order"""
@@ -569,7 +707,7 @@ class Unit:
             t = t[:pos] + new + t[e + 1:]
         if c:
             for k in c.loops:
-                if k not in used:
+                if k not in used and k != 1000:
                     raise ExtractError('%s: lost anchor: contract refers to loop %d but the function has %d loops' % (key, k, len(loops)))
         return t
 
@@ -637,7 +775,7 @@ class Unit:
             ghost = ('\n' + '\n'.join(Lf['ghost'])) if Lf['ghost'] else ''
             entry = ('\n' + '\n'.join(Lf['body_entry'])) if Lf['body_entry'] else ''
             after = ('\n' + '\n'.join(Lf['after'])) if Lf['after'] else ''
-        new = ('{ let mut __acc = %s; let mut __itf = %s;%s\nloop%s\n{\n let %s = match __itf.next() { None => break, Some(__v) => __v };%s\n let %s = __acc;\n __acc = %s;\n}%s\n __acc }'
+        new = ('{ let mut __acc = %s; let mut __itf = %s;%s\nloop%s\n{\n let ghost __remf = __itf.remaining();\n let %s = match __itf.next() { None => break, Some(__v) => __v };%s\n let %s = __acc;\n __acc = %s;\n}%s\n __acc }'
                % (init.strip(), recv, ghost, spec, x, entry, accpat, cbody, after))
         self.rule('E5b.fold_desugared')
         meta['rules'].append('E5b')
